@@ -616,6 +616,9 @@ func interpretPDF(data []byte) *displayList {
 			in.finishPath()
 		case "n":
 			in.finishPath()
+		case "Do":
+			name, _ := op.Operands[0].(pdfread.Name)
+			in.paintXObject(name, fmtOp(op))
 		default:
 			dl.problem("pdf-unexpected-operator", "operator %q (%s) in the content of a path-only drawing", op.Operator, pdfread.Operators[op.Operator].Category)
 		}
@@ -633,4 +636,130 @@ func (in *pdfInterp) finishPath() {
 		in.clipNext = nil
 	}
 	in.endPath()
+}
+
+// pdfImageSamples decodes an image XObject of 8 bits per component in DeviceRGB or DeviceGray
+// (8.9.5): rows top to bottom, each row padded to a whole byte (trivially so at 8 bits).
+func (in *pdfInterp) pdfImageSamples(st *pdfread.Stream, what string) (w, h, ncomp int, data []byte, ok bool) {
+	num := func(k pdfread.Name) (int, bool) {
+		v, ok := in.doc.Resolve(st.Dict[k]).(int64)
+		return int(v), ok
+	}
+	if sub, _ := in.doc.Resolve(st.Dict["Subtype"]).(pdfread.Name); sub != "Image" {
+		in.dl.problem("pdf-interpreter-limit", "%s: XObject subtype %v is not interpreted", what, st.Dict["Subtype"])
+		return
+	}
+	w, ok1 := num("Width")
+	h, ok2 := num("Height")
+	bpc, ok3 := num("BitsPerComponent")
+	if !ok1 || !ok2 || !ok3 || w <= 0 || h <= 0 {
+		in.dl.problem("pdf-bad-image", "%s: /Width, /Height or /BitsPerComponent missing or not integers", what)
+		return
+	}
+	if bpc != 8 {
+		in.dl.problem("pdf-interpreter-limit", "%s: %d bits per component", what, bpc)
+		return
+	}
+	switch cs, _ := in.doc.Resolve(st.Dict["ColorSpace"]).(pdfread.Name); cs {
+	case "DeviceRGB":
+		ncomp = 3
+	case "DeviceGray":
+		ncomp = 1
+	default:
+		in.dl.problem("pdf-interpreter-limit", "%s: colour space %v", what, st.Dict["ColorSpace"])
+		return
+	}
+	if _, has := st.Dict["Decode"]; has {
+		in.dl.problem("pdf-interpreter-limit", "%s: /Decode array", what)
+		return
+	}
+	if _, has := st.Dict["Mask"]; has {
+		in.dl.problem("pdf-interpreter-limit", "%s: /Mask", what)
+		return
+	}
+	if im, _ := in.doc.Resolve(st.Dict["ImageMask"]).(bool); im {
+		in.dl.problem("pdf-interpreter-limit", "%s: /ImageMask", what)
+		return
+	}
+	fs, _ := st.Filters()
+	for _, f := range fs {
+		if f == "DCTDecode" || f == "DCT" {
+			in.dl.problem("pdf-interpreter-limit", "%s: DCTDecode (lossy encoding is outside the bound)", what)
+			return
+		}
+	}
+	data, err := st.Decode()
+	if err != nil {
+		in.dl.problem("pdf-bad-image", "%s: %v", what, err)
+		return
+	}
+	if !st.LengthOK {
+		in.dl.problem("pdf-bad-image", "%s: stream /Length is wrong", what)
+	}
+	if len(data) < w*h*ncomp {
+		in.dl.problem("pdf-bad-image", "%s: %d bytes of sample data, %d x %d x %d = %d needed", what, len(data), w, h, ncomp, w*h*ncomp)
+		return 0, 0, 0, nil, false
+	}
+	if len(data) > w*h*ncomp {
+		in.dl.tally("pdf-image-data-longer-than-needed")
+	}
+	return w, h, ncomp, data, true
+}
+
+// paintXObject: Do with an image XObject paints the image into the unit square of user space,
+// the first sample row along the TOP edge (y = 1), 8.9.4 / Figure 34; a soft mask image (SMask,
+// 11.6.5.3) gives the per-sample alpha; the nonstroking alpha constant applies on top.
+func (in *pdfInterp) paintXObject(name pdfread.Name, src string) {
+	xo := in.doc.ResourceCategory(in.page.Resources, "XObject")
+	st, ok := in.doc.Resolve(xo[name]).(*pdfread.Stream)
+	if !ok {
+		return // reported as pdf-missing-resource, or not a stream
+	}
+	w, h, nc, data, ok := in.pdfImageSamples(st, "image /"+string(name))
+	if !ok {
+		return
+	}
+	var alpha []byte
+	if sm, has := st.Dict["SMask"]; has {
+		ms, ok := in.doc.Resolve(sm).(*pdfread.Stream)
+		if !ok {
+			in.dl.problem("pdf-bad-image", "image /%s: /SMask is not a stream", name)
+			return
+		}
+		mw, mh, mnc, md, ok := in.pdfImageSamples(ms, "soft mask of /"+string(name))
+		if !ok {
+			return
+		}
+		if mnc != 1 {
+			in.dl.problem("pdf-bad-image", "soft mask of /%s is not DeviceGray", name)
+			return
+		}
+		if mw != w || mh != h {
+			in.dl.problem("pdf-interpreter-limit", "soft mask of /%s is %dx%d, the image %dx%d", name, mw, mh, w, h)
+			return
+		}
+		alpha = md
+	}
+	pix := make([]colour, w*h)
+	for k := range pix {
+		a := 1.0
+		if alpha != nil {
+			a = float64(alpha[k]) / 255
+		}
+		if nc == 3 {
+			pix[k] = colour{float64(data[3*k]) / 255, float64(data[3*k+1]) / 255, float64(data[3*k+2]) / 255, a}
+		} else {
+			g := float64(data[k]) / 255
+			pix[k] = colour{g, g, g, a}
+		}
+	}
+	// image space (u,v) -> unit square (u/w, 1 - v/h) -> CTM -> page -> mm
+	total := in.toMM.mul(in.gs.ctm).mul(aff{1 / float64(w), 0, 0, -1 / float64(h), 0, 1})
+	im, ok := newRaster(w, h, pix, total, in.gs.ca, fmt.Sprintf("/%s %dx%d", name, w, h))
+	if !ok {
+		in.dl.tally("pdf-image-under-singular-ctm")
+		return
+	}
+	in.dl.items = append(in.dl.items, item{role: "image", reg: im.quad("pdf"), clips: in.gs.clips, paint: paint{img: im},
+		src: fmt.Sprintf("CTM %s %s (ca %.3g, %d clipping paths)", in.gs.ctm.String(), src, in.gs.ca, len(in.gs.clips))})
 }
